@@ -284,6 +284,16 @@ def in_memory(h):
 
 
 # ------------------------------------------------------------------------------------------------
+# "... and in merged stores": the merged index (ids -> rows shifted by the sizes of the earlier parts) and the merged store's
+# own part order (metadata, opened and read back) are the contracts of C09; both are obligations of this property too,
+# since a lookup in a merged store is the composition of the two
+from contracts import C09 as _c09   # noqa: E402
+from pyvc.verify import UNITS as _UNITS   # noqa: E402
+for _u in _UNITS.get('C09', []):
+    if _u.name in ('merged-index.offsets', 'merge-then-open.concatenation'):
+        unit('C08', 'merged.' + _u.name, _u.func, replay='contracts.C09:replay', max_paths=_u.max_paths)(_u.fn)
+
+
 def replay(payload):
     """Native dictionary-model comparison over create / add (unsorted ids) / lookup before sync /
     close / reopen-for-append / add / lookup / reopen-for-read, plus the un-indexed append case."""
